@@ -7,16 +7,19 @@ NOTES = ("Technique family: machine-checked proof in Coq 8.16.1.  bin/check <ID>
 NOT_APPLICABLE = {}
 CHECKS = {
  "C04": {
-  "text": ("Theorems (no axioms) over an abstract field with conjugation: for each of the 72 two-port conversions the "
-           "output satisfies its defining relation for exactly the states satisfying the input's relation; aliased = "
-           "separate; round trip; chains; the nine input-impedance functions.  The Gallina definitions are regenerated "
-           "from src/vnaconv_*.c on every run and validated against the compiled functions.  n-port functions: "
-           "hand-written executable model (on the LU model) tied by exact-rational correspondence for n = 1..6, "
-           "aliased and separate, plus an independent relation oracle and agreement with the two-port functions at n = 2."),
-  "design_ref": "DESIGN.md section 4, C04",
-  "note": ("Trusted: Coq kernel, translator conv2.py (validated per run), hand-written relations of vnaconv(3) in "
-           "Conv/ConvRel.v, exact arithmetic in place of binary64 (rounding outside every theorem); the n-port "
-           "functions are covered by correspondence with a hand model, not by a general-n theorem."),
-  "technique": "Coq proof over regenerated model (field tactic) + differential correspondence",
+  "text": ("Theorems (no axioms). Two-port: over an abstract field with conjugation, for each of the 72 conversions the "
+           "output satisfies its defining relation of vnaconv(3) for exactly the states satisfying the input's; aliased = "
+           "separate; round trip; chains; the nine input-impedance functions; hypotheses shown satisfiable over Q[i]. The "
+           "Gallina definitions and per-function lemmas are regenerated from src/vnaconv_*.c on every run (translator, "
+           "validated against the compiled functions). n-port: mathcomp theorems for all n for stozn/stoyn/ztosn/ytosn/"
+           "ztoyn/ytozn at specification level; the executable model of the nine n-port functions (on the LU model) is "
+           "tied by exact-rational correspondence for n = 1..6 (aliased and separate) and proved equal to the translated "
+           "two-port functions at n = 2 for either pivot order; independent relation oracles search for failing inputs."),
+  "design_ref": "DESIGN.md section 4 C04 and section 9; docs/design_C04.md",
+  "note": ("Trusted: Coq kernel (+vm_compute), translator conv2.py (validated per run), the reading of vnaconv(3) in "
+           "Conv/ConvRel.v, exact arithmetic in place of binary64 (rounding outside every theorem). Partial: the three "
+           "n-port *zin functions have n = 2 theorems (ytozin none) and correspondence only; the link from the general-n "
+           "specification to the executable model is C19's LU correctness theorem."),
+  "technique": "Coq proof over a model regenerated from the C text (field tactic, mathcomp) + differential correspondence",
  },
 }
